@@ -243,6 +243,50 @@ def cli_check(st, pat):
                     st.violation(f"C15:test-pep440-line:{shape}", dict(case, cli="test"), {"shown": shown, "expected": str(pv.Version(v))})
                     st.outcomes["violation"] += 1
         prev = (v, w)
+    # the increment path: `update` with flags (incl. --tag-num on patterns without NUM), files must again agree
+    for state in states[:4]:
+        r = lib_check(Stats(), pat, state)
+        if r is None:
+            continue
+        ov, ow = r
+        for flags in (("--tag-num",), ("--patch", "--tag-num"), ("--minor", "--tag-num"), ("--patch",), ("--tag", "rc"), ("--tag-num", "--tag", "beta")):
+            if ("--patch" in flags and "PATCH" not in pat.names) or ("--minor" in flags and "MINOR" not in pat.names):
+                continue
+            world.clear_dir(".")
+            world.write_tree({"bumpver.toml": CFG.format(v=ov, p=pat.text).encode(), "a.txt": f"ver={ov};\npep={ow};\n".encode()})
+            o = world.cli("update", "--no-fetch", "--ignore-vcs-tag", "--date", "2035-01-01", *flags)
+            st.evaluations += 1
+            st.transitions += 1
+            if o.exit != 0:
+                st.outcomes["cli-increment-refused"] += 1
+                continue
+            st.validated += 1
+            body = world.read_tree(".")["a.txt"].decode()
+            m = re.fullmatch(r"ver=(.*);\npep=(.*);\n", body)
+            case = {"pattern": pat.text, "old": ov, "flags": list(flags), "cli": "update-increment"}
+            st.observe((pat.text, ov, flags, body))
+            ok = False
+            if m and m.group(1) == o.new_version:
+                if not bg_is_pep440(m.group(1)):
+                    ok = True  # out of scope: the version itself is not PEP 440
+                else:
+                    try:
+                        ok = pv.Version(m.group(2)) == pv.Version(m.group(1)) and normal_form_problem(m.group(2), pv.Version(m.group(1))) is None
+                    except pv.InvalidVersion:
+                        ok = False
+            if not ok:
+                st.outcomes["violation"] += 1
+                st.violation(f"C15:file-written-by-update-increment:{shape}", case, {"file": body, "announced": o.new_version})
+            else:
+                st.outcomes["cli-increment-ok"] += 1
+
+
+def bg_is_pep440(s):
+    try:
+        pv.Version(s)
+        return True
+    except pv.InvalidVersion:
+        return False
 
 
 def replay(case, st):
